@@ -151,6 +151,53 @@ fn overlay_threshold_history(s: &mut Scenario, r: &mut Rng) {
     s.probes = pv.iter().map(|k| K(*k)).collect();
 }
 
+/// Many beatree workers over few leaves with merges that cascade across worker boundaries: a
+/// family of neighbouring keys with large in-leaf values (about three per leaf), then a commit
+/// that shrinks / deletes many of them and inserts small values in between, run with 8..64 commit
+/// workers (the extend-range protocol hands leaves from worker to worker several times).
+fn merge_cascade_history(s: &mut Scenario, r: &mut Rng) {
+    let base = r.bytes32();
+    let cc = *r.pick(&[8usize, 16, 32, 64, 64]);
+    // about one to two and a half operations per worker in the second commit: a few workers
+    // owning one leaf each at the left end and one owning the rest, or an even spread
+    let slots = (cc as u64 * r.range(10, 25) / 10).max(12);
+    let stride = r.range(1, 3);
+    let fam = |i: u64| -> Key { let mut k = base; for b in k.iter_mut().skip(20) { *b = 0; } k[24..32].copy_from_slice(&(0x100 + i * stride * 4 + 3).to_be_bytes()); k };
+    let mut stamp = 1_500_000u32;
+    let mut steps = Vec::new();
+    // anchors: large values, two or three per leaf, at irregular distances
+    let mut anchors: Vec<u64> = Vec::new();
+    let mut i = 0u64;
+    while i < slots { anchors.push(i); i += r.range(1, 12); }
+    let first: Vec<(K, Act)> = anchors.iter().map(|i| { stamp += 1; (K(fam(*i)), Act::Write(Some(VSpec { len: *r.pick(&[1331u32, 1331, 1332, 1332, 1000]), stamp }))) }).collect();
+    steps.push(Step::Commit { batch: Batch { items: first, ..Default::default() }, nonblocking: false });
+    for _round in 0..r.range(1, 2) {
+        let mut items: Vec<(K, Act)> = Vec::new();
+        // how far from the left end values shrink (underfull leaves whose merges cascade rightwards)
+        let shrink_upto = r.range(1, 4 + slots / 8);
+        for i in 0..slots {
+            let k = K(fam(i));
+            if anchors.contains(&i) {
+                if i < shrink_upto && r.chance(2, 3) { if r.chance(1, 3) { items.push((k, Act::Write(None))); } else { stamp += 1; items.push((k, Act::Write(Some(VSpec { len: *r.pick(&[4u32, 9, 33]), stamp })))); } }
+                else { match r.below(10) { 0 => items.push((k, Act::Write(None))), 1 => { stamp += 1; items.push((k, Act::Write(Some(VSpec { len: *r.pick(&[9u32, 1000, 1331, 1332]), stamp })))); } 2 => items.push((k, Act::Read)), _ => {} } }
+            } else {
+                match r.below(10) {
+                    0..=6 => { stamp += 1; items.push((k, Act::Write(Some(VSpec { len: *r.pick(&[0u32, 4, 8, 9, 32, 33, 64, 100, 200]), stamp })))); }
+                    7 => { stamp += 1; items.push((k, Act::Write(Some(VSpec { len: *r.pick(&[500u32, 1000, 1331, 1332, 4092, 100_000]), stamp })))); }
+                    _ => {}
+                }
+            }
+        }
+        if items.is_empty() { continue; }
+        steps.push(Step::Commit { batch: Batch { items, ..Default::default() }, nonblocking: false });
+        if r.chance(1, 4) { steps.push(Step::Reopen { opts: regen_opts(r, &s.opts, true) }); }
+    }
+    s.opts.commit_concurrency = cc;
+    for st in steps.iter_mut() { if let Step::Reopen { opts } = st { opts.commit_concurrency = cc; } }
+    s.steps = steps;
+    s.probes.truncate(3);
+}
+
 /// A value-file free list spanning several pages: a few dozen multi-page values are written and
 /// then all replaced in one commit (more than 1022 pages released at once), followed by reopen /
 /// small commit / reopen / large commit / ... so that the list is read back from disk, popped
@@ -206,6 +253,10 @@ pub fn make(prop: &str, tier: Tier, seed: u64) -> Scenario {
         let target = freelist_history(&mut s, &mut fr);
         let target = target.min(s.steps.len() - 1);
         if let Some(pl) = s.extra.get_mut("plan") { pl["target"] = json!(target); }
+    }
+    let mut mr = Rng::new(seed ^ 0x3E46_E0CA);
+    if matches!(prop, "C01" | "C16" | "C19" | "C10") && s.extra.get("plan").is_none() && s.extra.get("kind").is_none() && s.extra.get("c19_cycles").is_none() && (mr.chance(1, 12) || std::env::var("SIM_FORCE_FAMILY").map_or(false, |v| v == "merge")) {
+        merge_cascade_history(&mut s, &mut mr);
     }
     let mut or = Rng::new(seed ^ 0x0E11_D0E5);
     if matches!(prop, "C02" | "C05" | "C11" | "C16") && s.extra.get("plan").is_none() && s.extra.get("kind").is_none() && or.chance(1, 12) {
